@@ -319,4 +319,275 @@ theorem output_eq_decRun (p : Params) (pieces : List (Method × List UInt8)) :
     | error e' => rw [hd] at h; simp at h
     | ok o => rw [hd] at h; simp only at h; simp only [h]
 
+/-! ### bridge 2: the byte-level reference run = `Spec.decode` -/
+
+theorem finishB_andThen_ok (s : DecState) (o : List UInt8) (k) :
+    finishB (andThen (.ok (s, o)) k) =
+      match finishB (k s) with
+      | .error e => .error e
+      | .ok out => .ok (o ++ out) := by
+  simp only [andThen_ok]
+  cases k s with
+  | error e => rfl
+  | ok so =>
+    obtain ⟨s', o'⟩ := so
+    simp only [finishB]
+    cases Dec.finish s' with
+    | error e => rfl
+    | ok u => rfl
+
+/-- State after a size header announcing `n` bytes (`t` = the chunk is short). -/
+def afterHdr (n : Nat) (t : Bool) : DecState := if n > 0 then .inChunk n t else .beforeChunk t
+
+/-- A chunk body of `n` bytes: cut short, or `n` bytes out and on to the next header. -/
+theorem decRunFrom_body (p : Params) (n : Nat) (t : Bool) (rest : List UInt8) :
+    decRunFrom p (afterHdr n t) rest =
+      if rest.length < n then .error .cutShort
+      else match decRunFrom p (.beforeChunk t) (rest.drop n) with
+        | .error e => .error e
+        | .ok out => .ok (rest.take n ++ out) := by
+  by_cases hn : n > 0
+  · simp only [afterHdr, if_pos hn, decRunFrom]
+    rw [foldB_inChunk p n t rest hn, finishB_andThen_ok]
+    by_cases hl : rest.length < n
+    · have hm : min rest.length n = rest.length := by omega
+      simp [hm, hl, finishB, Dec.finish]
+    · have hm : min rest.length n = n := by omega
+      simp only [hm, Nat.lt_irrefl, if_false, if_neg hl]
+  · have h0 : n = 0 := by omega
+    subst h0
+    simp only [afterHdr, Nat.lt_irrefl, if_false, Nat.not_lt_zero, List.drop_zero, List.take_zero,
+      List.nil_append]
+    cases decRunFrom p (DecState.beforeChunk t) rest <;> rfl
+
+theorem decLoop_cons (p : Params) (fuel : Nat) (first pend : Bool) (b : UInt8) (t : List UInt8) :
+    Spec.decLoop p (fuel + 1) first pend (b :: t) =
+      match Spec.parseHdr p first (b :: t) with
+      | none => none
+      | some (n, rest) =>
+        if rest.length < n then none
+        else
+          match Spec.decLoop p fuel false (n < (if first then p.maxInit else p.maxSub)) (rest.drop n) with
+          | none => none
+          | some out => some ((if pend then [FE, FD] else []) ++ rest.take n ++ out) := by
+  rfl
+
+/-- Refinement statement for one state / spec-flag pair. -/
+def Agrees (spec : Option (List UInt8)) (impl : Except DecErr (List UInt8)) : Prop :=
+  match spec with
+  | some out => impl = .ok out
+  | none => ∃ e, impl = .error e
+
+theorem decLoop_sub (p : Params) (fuel : Nat) (pend : Bool) (inp : List UInt8) (hf : inp.length < fuel) :
+    Agrees (Spec.decLoop p fuel false pend inp) (decRunFrom p (.beforeChunk pend) inp) := by
+  induction fuel generalizing pend inp with
+  | zero => omega
+  | succ fuel ih =>
+    match inp with
+    | [] =>
+      cases pend <;> simp [Spec.decLoop, Agrees, decRunFrom, finishB, Dec.finish]
+    | [b] =>
+      simp only [decLoop_cons, Spec.parseHdr, Agrees, decRunFrom, foldB_cons, foldB_nil, stepB]
+      by_cases h1 : b.toNat ≥ p.radix
+      · simp [h1, finishB]
+      · simp [h1, finishB, Dec.finish]
+    | b :: c :: rest =>
+      simp only [decLoop_cons, Spec.parseHdr, decRunFrom, foldB_cons, stepB]
+      by_cases h1 : b.toNat ≥ p.radix
+      · have : ¬ (b.toNat < p.radix ∧ c.toNat < p.radix ∧ b.toNat + c.toNat * p.radix ≤ p.maxSub) := by omega
+        simp [h1, this, finishB, Agrees]
+      · by_cases h2 : c.toNat ≥ p.radix
+        · have : ¬ (b.toNat < p.radix ∧ c.toNat < p.radix ∧ b.toNat + c.toNat * p.radix ≤ p.maxSub) := by omega
+          simp [h1, h2, this, finishB, Agrees]
+        · by_cases h3 : b.toNat + c.toNat * p.radix > p.maxSub
+          · have : ¬ (b.toNat < p.radix ∧ c.toNat < p.radix ∧ b.toNat + c.toNat * p.radix ≤ p.maxSub) := by omega
+            simp [h1, h2, h3, this, finishB, Agrees]
+          · have hc : (b.toNat < p.radix ∧ c.toNat < p.radix ∧ b.toNat + c.toNat * p.radix ≤ p.maxSub) := by omega
+            have hst : (if b.toNat + c.toNat * p.radix > 0 then
+                  (Except.ok (DecState.inChunk (b.toNat + c.toNat * p.radix)
+                    (b.toNat + c.toNat * p.radix < p.maxSub), []) : Except DecErr (DecState × List UInt8))
+                else .ok (DecState.beforeChunk (b.toNat + c.toNat * p.radix < p.maxSub), []))
+                = .ok (afterHdr (b.toNat + c.toNat * p.radix) (b.toNat + c.toNat * p.radix < p.maxSub), []) := by
+              unfold afterHdr; split <;> rfl
+            simp only [if_neg h1, if_neg h2, if_neg h3, if_pos hc, hst, finishB_andThen_ok, List.nil_append]
+            have hb := decRunFrom_body p (b.toNat + c.toNat * p.radix) (b.toNat + c.toNat * p.radix < p.maxSub) rest
+            unfold decRunFrom at hb
+            rw [hb]
+            by_cases hl : rest.length < b.toNat + c.toNat * p.radix
+            · simp [hl, Agrees]
+            · have hlen : (rest.drop (b.toNat + c.toNat * p.radix)).length < fuel := by
+                simp only [List.length_drop, List.length_cons] at *; omega
+              have := ih (decide (b.toNat + c.toNat * p.radix < p.maxSub)) _ hlen
+              simp only [if_neg hl, Bool.false_eq_true, if_false]
+              unfold Agrees at this
+              cases hd : Spec.decLoop p fuel false (decide (b.toNat + c.toNat * p.radix < p.maxSub))
+                  (List.drop (b.toNat + c.toNat * p.radix) rest) with
+              | none =>
+                rw [hd] at this
+                obtain ⟨e, he⟩ := this
+                unfold decRunFrom at he
+                simp [he, Agrees]
+              | some out =>
+                rw [hd] at this
+                unfold decRunFrom at this
+                simp [this, Agrees]
+
+theorem decode_agrees (p : Params) (inp : List UInt8) :
+    Agrees (Spec.decode p inp) (decRun p inp) := by
+  unfold Spec.decode decRun
+  match inp with
+  | [] => simp [Spec.decLoop, Agrees, decRunFrom, finishB, Dec.finish]
+  | b :: rest =>
+    simp only [decLoop_cons, Spec.parseHdr, decRunFrom, foldB_cons, stepB]
+    by_cases h1 : b.toNat > p.maxInit
+    · have : ¬ b.toNat ≤ p.maxInit := by omega
+      simp [h1, this, finishB, Agrees]
+    · have hc : b.toNat ≤ p.maxInit := by omega
+      have hst : (if b.toNat > 0 then
+            (Except.ok (DecState.inChunk b.toNat (b.toNat < p.maxInit), []) : Except DecErr (DecState × List UInt8))
+          else .ok (DecState.beforeChunk (b.toNat < p.maxInit), []))
+          = .ok (afterHdr b.toNat (b.toNat < p.maxInit), []) := by
+        unfold afterHdr; split <;> rfl
+      simp only [if_neg h1, if_pos hc, hst, finishB_andThen_ok, List.nil_append, if_true]
+      have hb := decRunFrom_body p b.toNat (b.toNat < p.maxInit) rest
+      unfold decRunFrom at hb
+      rw [hb]
+      by_cases hl : rest.length < b.toNat
+      · simp [hl, Agrees]
+      · have hlen : (rest.drop b.toNat).length < (b :: rest).length := by
+          simp only [List.length_drop, List.length_cons]; omega
+        have := decLoop_sub p _ (decide (b.toNat < p.maxInit)) _ hlen
+        simp only [if_neg hl, Bool.false_eq_true, if_false]
+        unfold Agrees at this
+        cases hd : Spec.decLoop p (b :: rest).length false (decide (b.toNat < p.maxInit))
+            (List.drop b.toNat rest) with
+        | none =>
+          rw [hd] at this
+          obtain ⟨e, he⟩ := this
+          unfold decRunFrom at he
+          simp [he, Agrees]
+        | some out =>
+          rw [hd] at this
+          unfold decRunFrom at this
+          simp [this, Agrees]
+
+/-! ### panic freedom (`dec_total`) -/
+
+/-- States the decoder can be in when `once` is called: the initial state and
+everything a successful `once` (any method, any non-empty input) leads to. -/
+inductive Reachable (p : Params) : DecState → Prop
+  | init : Reachable p .initial
+  | step {s : DecState} {m : Method} {b : UInt8} {rest : List UInt8} {o : Dec.OnceOut} :
+      Reachable p s → Dec.once p m s b rest = .ok o → Reachable p o.st
+
+/-- `InChunk.remaining` is a `NonZeroU32`. -/
+def WF32 : DecState → Prop
+  | .inChunk rem _ => 0 < rem ∧ rem < 2 ^ 32
+  | _ => True
+
+/-- Every panic site on the path `once` takes from `s` on input `b :: rest` is passed:
+* `NonZeroU32::new(chunk_size as u32).unwrap()` in `InitialState::decode` / `MidHeader::decode`
+  (reached when the header is accepted and `chunk_size > 0`): `0 < chunk_size < 2³²`;
+* `InChunk::update`: `NonZeroU32::new(remaining - consumed).unwrap()` when `consumed < remaining`,
+  `assert_eq!(remaining, consumed)` otherwise (and the casts to `u32` are exact);
+* the caller's `&input[consumed..]`: `consumed ≤ input.len()` (and `> 0`: the loop makes progress). -/
+def OnceNoPanic (p : Params) (m : Method) (s : DecState) (b : UInt8) (rest : List UInt8) : Prop :=
+  (match s with
+   | .initial => (¬ b.toNat > p.maxInit ∧ b.toNat > 0) → 0 < b.toNat ∧ b.toNat < 2 ^ 32
+   | .beforeChunk _ => True
+   | .midHeader b0 =>
+     (¬ b.toNat ≥ p.radix ∧ ¬ b0.toNat + b.toNat * p.radix > p.maxSub ∧ b0.toNat + b.toNat * p.radix > 0) →
+       0 < b0.toNat + b.toNat * p.radix ∧ b0.toNat + b.toNat * p.radix < 2 ^ 32
+   | .inChunk rem _ =>
+     0 < rem ∧ rem < 2 ^ 32 ∧
+     (min (rest.length + 1) rem < rem → 0 < rem - min (rest.length + 1) rem) ∧
+     (¬ min (rest.length + 1) rem < rem → rem = min (rest.length + 1) rem)) ∧
+  (∀ o, Dec.once p m s b rest = .ok o → 0 < o.consumed ∧ o.consumed ≤ (b :: rest).length)
+
+theorem valid_maxSub_lt (p : Params) (hp : p.Valid) : p.maxSub < 2 ^ 32 := by
+  obtain ⟨_, _, _, h4, _, h6⟩ := hp
+  have : p.radix * p.radix ≤ 253 * 253 := Nat.mul_le_mul h6 h6
+  omega
+
+theorem once_wf32 (p : Params) (hp : p.Valid) {m : Method} {s : DecState} {b : UInt8} {rest : List UInt8}
+    {o : Dec.OnceOut} (hs : WF32 s) (h : Dec.once p m s b rest = .ok o) : WF32 o.st := by
+  have hsub := valid_maxSub_lt p hp
+  have hb : b.toNat < 256 := UInt8.toNat_lt b
+  cases s with
+  | initial =>
+    simp only [Dec.once] at h
+    split at h
+    · cases h
+    · split at h
+      · cases h; simp only [WF32]; omega
+      · cases h; trivial
+  | beforeChunk ins =>
+    simp only [Dec.once] at h
+    split at h
+    · cases h
+    · cases h; trivial
+  | midHeader b0 =>
+    simp only [Dec.once] at h
+    split at h
+    · cases h
+    · split at h
+      · cases h
+      · split at h
+        · cases h; simp only [WF32]; omega
+        · cases h; trivial
+  | inChunk rem term =>
+    simp only [Dec.once] at h
+    cases h
+    simp only [WF32] at hs
+    split
+    · simp only [WF32]; omega
+    · trivial
+
+theorem reachable_wf32 (p : Params) (hp : p.Valid) {s : DecState} (h : Reachable p s) : WF32 s := by
+  induction h with
+  | init => trivial
+  | step _ ho ih => exact once_wf32 p hp ih ho
+
+theorem wf_of_wf32 {s : DecState} (h : WF32 s) : WF s := by
+  cases s <;> simp_all [WF, WF32]
+
+theorem once_noPanic (p : Params) (hp : p.Valid) (m : Method) (s : DecState) (b : UInt8) (rest : List UInt8)
+    (hs : WF32 s) : OnceNoPanic p m s b rest := by
+  have hsub := valid_maxSub_lt p hp
+  have hb : b.toNat < 256 := UInt8.toNat_lt b
+  refine ⟨?_, ?_⟩
+  · cases s with
+    | initial => simp only; omega
+    | beforeChunk ins => trivial
+    | midHeader b0 => simp only; omega
+    | inChunk rem term => simp only [WF32] at hs; simp only; omega
+  · intro o ho
+    have := once_spec p m s b rest (wf_of_wf32 hs)
+    rw [ho] at this
+    exact ⟨this.1, this.2.1⟩
+
+/-- A whole `feed` call passes only through reachable states. -/
+theorem feed_reachable (p : Params) (m : Method) (fuel : Nat) (s : DecState) (input : List UInt8)
+    (hs : Reachable p s) {s' : DecState} {es : List Emit}
+    (h : Dec.feed p m fuel s input = .ok (s', es)) : Reachable p s' := by
+  induction fuel generalizing s input es with
+  | zero => simp only [Dec.feed] at h; cases h; exact hs
+  | succ fuel ih =>
+    cases input with
+    | nil => simp only [Dec.feed] at h; cases h; exact hs
+    | cons b rest =>
+      simp only [Dec.feed] at h
+      cases ho : Dec.once p m s b rest with
+      | error ee => rw [ho] at h; cases h
+      | ok o =>
+        rw [ho] at h
+        simp only at h
+        cases hr : Dec.feed p m fuel o.st (List.drop o.consumed (b :: rest)) with
+        | error ee => rw [hr] at h; cases h
+        | ok se =>
+          obtain ⟨s1, es1⟩ := se
+          rw [hr] at h
+          cases h
+          exact ih o.st _ (Reachable.step hs ho) hr
+
 end Woodpile.Hcobs.DecProof
